@@ -400,7 +400,7 @@ pub fn evaluate_single(cfg: &RunCfg, rec: &RunRecord) -> (Vec<Finding>, Facts) {
     }
 
     // ---------------------------------------------------------------- C01: nothing lost
-    if end_observed && !has_skip && !has_panic {
+    if end_observed && !has_skip && !has_panic && !kind.is_endless() {
         let missing: Vec<usize> = (0..len).filter(|p| !seen.contains_key(&(*p as i128))).collect();
         // positions never delivered may still be returned by into_seq_iter only if no end was
         // observed; here an end was observed, so everything must have been delivered
